@@ -204,7 +204,7 @@ func cmdCheck(args []string) int {
 		}
 	}
 	all := append(append([]*Obligation{}, obls...), twins...)
-	DischargeAll(all, timeout, 5, *tier == "thorough")
+	DischargeAll(all, timeout, 4, *tier == "thorough")
 
 	// verdicts
 	violations := 0
